@@ -6,6 +6,7 @@ import ast
 from sa.cfg import CFG
 from sa.model import AnalysisError, FuncInfo, Model, walk_no_nested
 from sa.report import Report
+from sa.util import check_unravel_2d
 
 TITLE = "Service and identifier scans report what the ECU really supports, nothing else"
 SVC = "gallia.commands.scan.uds.services"
@@ -175,42 +176,7 @@ def run(m: Model, r: Report, tier: str) -> None:
     r.check(okp, "R8", f"{pi.qualname}#positive-counter", "positive_DIDs must be incremented exactly in the else-branch of isinstance(resp, NegativeResponse)", loc=pi.loc)
 
     # ---------------------------------------------------------------- R9
-    u2 = m.require_function(f"{UTILS}.unravel_2d")
-    stores = [n for n in ast.walk(u2.node) if isinstance(n, ast.Assign) and isinstance(n.targets[0], ast.Subscript)]
-    maps = {ast.unparse(s.targets[0].value) for s in stores}
-    if len(maps) != 1:
-        raise AnalysisError(f"{u2.qualname}: accumulation map not found ({maps})")
-    mp = maps.pop()
-    none_stores = [s for s in stores if isinstance(s.value, ast.Constant) and s.value.value is None]
-    other_stores = [s for s in stores if s not in none_stores]
-    par = {}
-    for p_ in ast.walk(u2.node):
-        for c in ast.iter_child_nodes(p_):
-            par[id(c)] = p_
-    def guards(n):
-        out = []
-        cur = par.get(id(n))
-        prev = n
-        while cur is not None:
-            if isinstance(cur, ast.If):
-                out.append(("then" if prev in cur.body else "else", ast.unparse(cur.test)))
-            prev = cur
-            cur = par.get(id(cur))
-        return out
-    ok_none = len(none_stores) == 1 and not any("not in" in t or "is None" in t for side, t in guards(none_stores[0]) if side == "then") and \
-        any(side == "else" and "level_delimiter in" in t for side, t in guards(none_stores[0]))
-    setdefaults = [n for n in ast.walk(u2.node) if isinstance(n, ast.Call) and isinstance(n.func, ast.Attribute) and n.func.attr in ("setdefault", "get", "pop", "update")
-                   and ast.unparse(n.func.value) == mp]
-    r.check(ok_none and not setdefaults, "R9", f"{u2.qualname}#bare-key-stores-all",
-            "a bare outer key must unconditionally store None ('all'), also when the key was listed before "
-            f"(None stores: {[ast.unparse(s) for s in none_stores]}, dict helper calls: {[ast.unparse(s) for s in setdefaults]})", loc=u2.loc)
-    ok_other = all(any(side == "then" and t.replace(" ", "") == f"xnotin{mp}" for side, t in guards(s)) for s in other_stores) and len(other_stores) >= 1
-    r.check(ok_other, "R9", f"{u2.qualname}#listing-never-replaces-all",
-            f"a listed id set may only be created for a key that is not in the map yet ({[ast.unparse(s) for s in other_stores]}): "
-            "otherwise a later `key:ids` entry replaces an earlier whole-key skip and skipped sessions are scanned", loc=u2.loc)
-    muts = [n for n in ast.walk(u2.node) if isinstance(n, ast.Call) and isinstance(n.func, ast.Attribute) and n.func.attr in ("add", "update")]
-    ok_mut = bool(muts) and all(any(side == "then" and "is not None" in t and mp in t for side, t in guards(x)) for x in muts)
-    r.check(ok_mut, "R9", f"{u2.qualname}#extend-only-sets", "ids may only be added to an entry that is tested to be not None", loc=u2.loc)
+    check_unravel_2d(m, r, "R9")
 
     r.assumptions += ["the ECU model answers each probe independently; send_raw raises TimeoutError on silence"]
     r.not_decided += ["correctness against arbitrary ECU models (runtime behaviour)"]
